@@ -16,6 +16,8 @@ SPEC = {
         # dense inverse-CDF scan (sampleProbability, dense template)
         'dense_in_range', 'dense_preimage', 'dense_interval_length', 'dense_preimage_sum_one',
         'dense_zero_only_slack', 'dense_slack_last',
+        # range safety for ANY comparison / subtraction (covers IEEE rounding and NaN comparisons)
+        'denseA_in_range', 'denseA_exact', 'sparseFixedA_in_support', 'sparseFixedA_exact', 'sparseA_none_of_all_false', 'sparseGoA_exact',
         'dense_preimage_unit', 'dense_preimage_length_valid', 'dense_preimage_length_exact',
         # sparse row scan: partial totality, walk-off characterisation, refutation of totality, repaired scan
         'sparse_scan_char', 'sparse_total_partial', 'sparse_walks_off', 'sparse_total_counterexample',
